@@ -27,6 +27,10 @@ type TupleC14 struct {
 	List []int  `json:"list"` // peer indices; -1 = "*"; empty = none given (creator default)
 	// Dir: the Create calls pass a Directory option that differs from the instance's own directory
 	Dir bool `json:"dir,omitempty"`
+	// Shape (only when no writer is given): how "no writer" is spelt - 0: no access-controller options at all,
+	// 1: options with an empty access map, 2: {"write": []}, 3: {"admin": [creator]}, 4: {"read": ["*"]} (roles
+	// other than "write" are not recorded by the ipfs controller); every spelling means "the creator only"
+	Shape int `json:"shape,omitempty"`
 }
 
 type CaseC14 struct {
@@ -73,6 +77,7 @@ func genC14(rt *rapid.T) CaseC14 {
 			t.List = []int{2, 1, 2, 0, 1}
 		case 0:
 			t.List = []int{}
+			t.Shape = rapid.IntRange(0, 4).Draw(rt, "shape")
 		case 1:
 			t.List = []int{-1}
 		case 2:
@@ -118,6 +123,16 @@ func execC14(c CaseC14) *Outcome {
 	}()
 	acFor := func(t TupleC14) accesscontroller.ManifestParams {
 		if len(t.List) == 0 {
+			switch t.Shape {
+			case 1:
+				return &accesscontroller.CreateAccessControllerOptions{Access: map[string][]string{}}
+			case 2:
+				return &accesscontroller.CreateAccessControllerOptions{Access: map[string][]string{"write": {}}}
+			case 3:
+				return &accesscontroller.CreateAccessControllerOptions{Access: map[string][]string{"admin": w.WriteList([]int{0})}}
+			case 4:
+				return &accesscontroller.CreateAccessControllerOptions{Access: map[string][]string{"read": {"*"}}}
+			}
 			return nil
 		}
 		return &accesscontroller.CreateAccessControllerOptions{Access: map[string][]string{"write": w.WriteList(t.List)}}
